@@ -155,6 +155,12 @@ impl RK4 {
                 last = true;
             }
 
+            // Step below the resolution of x: no progress is possible
+            if x + h == x {
+                status = Status::StepSizeTooSmall;
+                break;
+            }
+
             // Stage computations
             for i in 0..n {
                 yt[i] = y[i] + h * A21 * k1[i];
